@@ -5,6 +5,7 @@
    decode-after-encode identity are validated against the real codec on every run. *)
 From Coq Require Import String List ZArith Bool Arith.
 From TR Require Import Extracted model.Socket proofs.SocketProofs.
+From TR Require Import model.GoSem model.ConnExt translated.ConnLoop proofs.TieConn.
 Import ListNotations.
 Close Scope string_scope.
 Open Scope list_scope.
@@ -63,3 +64,72 @@ Theorem C14_inband_marker_refuted :
     Forall (fun i => match i with IFrame b => List.length b = fs | IClear => True end) items /\
     run_conn fs [h ++ [NL] ++ flat_map enc_item items] <> mkCR (Some h) items.
 Proof. exact inband_marker_refuted. Qed.
+
+(* ---- the Go source itself (coq/translated/ConnLoop.v, regenerated from handleConn in
+   cmd/thermal-recorder/main.go on every run; outside world: model/ConnExt.v) ---- *)
+
+(* the frame loop as written: from any state in which its variables are what handleConn made them
+   (LoopInv; fi1, fi2 are the connection's two log intervals, non-zero - handleConn computes them as
+   package value * fps and, since /repo 927eb9c, never writes the package values, so they no longer
+   grow from one connection to the next), for every frame size >= 5, every segmentation of the remaining stream, every script
+   of Process results and fuel >= S (total_len cs): it does not panic, it ends only because the
+   stream ended (everything is consumed, the read error is returned), and what it adds to the log
+   is, in order, one Reset per marker and one Process(frame bytes) per frame of the model's
+   frames_c - a bad frame followed by exactly one event and one RestartCamera - nothing else *)
+Theorem C14_source_loop : forall cfg fs rd fi1 fi2 buf P w tf fuel,
+  (5 <= fs)%nat -> LoopInv fs rd fi1 fi2 buf P w -> (S (total_len (cw_in w)) <= fuel)%nat ->
+  let cs := cw_in w in
+  post (forever fuel (ConnLoop_fn_handleConn_loop1 (cext cfg) rd fi1 fi2 buf) tf w)
+       (fun r w' =>
+          r = Some (end_err (S (total_len cs)) fs cs) /\ cw_in w' = [] /\
+          cw_log w' = cw_log w ++ loop_log P (frames_c (S (total_len cs)) fs cs) (cw_script w)).
+Proof. exact tie_conn_loop. Qed.
+
+Theorem C14_source_loop_items : forall cfg fs rd fi1 fi2 buf P w tf fuel,
+  (5 <= fs)%nat -> LoopInv fs rd fi1 fi2 buf P w -> (S (total_len (cw_in w)) <= fuel)%nat ->
+  post (forever fuel (ConnLoop_fn_handleConn_loop1 (cext cfg) rd fi1 fi2 buf) tf w)
+       (fun r w' => exists added,
+          cw_log w' = cw_log w ++ added /\
+          items_of added = frames_c (S (total_len (cw_in w))) fs (cw_in w) /\
+          (r = Some ERR_EOF \/ r = Some ERR_UEOF) /\ cw_in w' = []).
+Proof. exact tie_conn_loop_items. Qed.
+
+(* handleConn from a fresh connection: the Reset / Process entries of its log are the items of
+   run_conn - the model the theorems above are about *)
+Theorem C14_source_conn_items : forall cfg cs script i1 i2 fuel text rest h,
+  header_c (S (total_len cs)) cs [] = Some (text, rest) ->
+  c_decode cfg text = Some h ->
+  parser_of (h_brand h) (h_model h) <> 0 ->
+  5 <= h_fs h -> h_fps h <> 0 -> i1 <> 0 -> i2 <> 0 ->
+  (S (total_len cs) <= fuel)%nat ->
+  post (src_conn cfg fuel (conn_init cs script i1 i2))
+    (fun r w' =>
+       items_of (cw_log w') = cr_items (run_conn (Z.to_nat (h_fs h)) cs) /\
+       (r = Some ERR_EOF \/ r = Some ERR_UEOF) /\ cw_in w' = []).
+Proof. exact tie_handleConn_items. Qed.
+
+(* the whole log of handleConn: wiring, loop, and the deferred Stop of the motion recorder last *)
+Theorem C14_source_conn : forall cfg cs script i1 i2 fuel text rest h,
+  header_c (S (total_len cs)) cs [] = Some (text, rest) ->
+  c_decode cfg text = Some h ->
+  parser_of (h_brand h) (h_model h) <> 0 ->
+  5 <= h_fs h -> h_fps h <> 0 -> i1 <> 0 -> i2 <> 0 ->
+  (total_len rest < fuel)%nat ->
+  post (src_conn cfg fuel (conn_init cs script i1 i2))
+    (fun r w' =>
+       r = Some (end_err (S (total_len rest)) (Z.to_nat (h_fs h)) rest) /\ cw_in w' = [] /\
+       cw_log w' = prelude_log cfg (parser_of (h_brand h) (h_model h)) ++
+                   loop_log (proc_tok cfg) (frames_c (S (total_len rest)) (Z.to_nat (h_fs h)) rest) script ++
+                   [EStop REC_TOK]).
+Proof. exact tie_handleConn. Qed.
+
+Theorem C14_source_stop_once : forall cfg cs script i1 i2 fuel text rest h,
+  header_c (S (total_len cs)) cs [] = Some (text, rest) ->
+  c_decode cfg text = Some h ->
+  parser_of (h_brand h) (h_model h) <> 0 ->
+  5 <= h_fs h -> h_fps h <> 0 -> i1 <> 0 -> i2 <> 0 ->
+  (total_len rest < fuel)%nat ->
+  post (src_conn cfg fuel (conn_init cs script i1 i2))
+    (fun r w' => exists before, cw_log w' = before ++ [EStop REC_TOK] /\ filter is_stop before = [] /\
+                                hd_error before = Some (EAutoFFC true) /\ In (ENewRecorder REC_TOK) before).
+Proof. exact tie_handleConn_stop. Qed.
